@@ -218,6 +218,8 @@ func ruleLITTYPE(c *Ctx, r *Report) {
 			case len(ops) == 1 && ops[0] == "expr.Wild" && pathHasWildcard(c, p.Atoms):
 				// the path established that the word contains * or ?: it cannot read as a number
 				r.ok(rule, key, pos, "pattern leaf under a positive * / ? test")
+			case len(ops) == 1 && ops[0] == "expr.Literal" && !strings.Contains(argKey, "strconv.") && !pathExcludesWildcard(c, p.Atoms):
+				r.bad(rule, key+"|untested-pattern", pos, fmt.Sprintf("a bare word becomes a plain text leaf (%s) on a path that has not found it free of * and ?: a word with a wildcard (and, say, an escape) is kept as literal text instead of becoming a pattern, and the JSON decoder — which types leaves by their text — reads it back as a pattern", argKey))
 			case !strings.Contains(argKey, "strconv.") && !(contains(seq, "int") && contains(seq, "float")):
 				r.bad(rule, key, pos, fmt.Sprintf("a bare word becomes a leaf with the text payload %s on a path where the int and float readings have not both been tried (tests on this path: %v): some numbers are typed as strings, so they are quoted in SQL and compared as text", argKey, seq))
 			default:
@@ -2008,6 +2010,17 @@ func ruleESCDECODE(c *Ctx, r *Report) {
 }
 
 // pathHasWildcard: some atom of the path says positively that the token text contains * or ?.
+// pathExcludesWildcard: the path has tested the word for * / ? and found none.
+func pathExcludesWildcard(c *Ctx, atoms []Atom) bool {
+	excluded := ""
+	for _, a := range atoms {
+		if _, set, pos, ok := c.charsetAtom(a); ok && !pos {
+			excluded += set // tests for single characters add up
+		}
+	}
+	return strings.Contains(excluded, "*") && strings.Contains(excluded, "?")
+}
+
 func pathHasWildcard(c *Ctx, atoms []Atom) bool {
 	for _, a := range atoms {
 		if _, set, pos, ok := c.charsetAtom(a); ok && pos && strings.ContainsAny(set, "*?") && !strings.ContainsAny(set, "0123456789") {
